@@ -650,7 +650,10 @@ func (h *History) advanceVotings(b int) {
 				h.callC(user(), l, b, "push", nil, "early")
 			case lst == 4 && n.App.State.GetBalance(l.Addr).Sign() > 0: // unlocked for refund
 				if next >= h.cu64(l.Addr, "refundBlock") {
-					h.callC(user(), l, b, "refund", nil, "due")
+					if l.round < 3 || r.Intn(8) == 0 { // (a refund that keeps failing — no deposits, only plain funding — is not retried every block)
+						l.round++
+						h.callC(user(), l, b, "refund", nil, "due")
+					}
 				} else if r.Intn(3) == 0 {
 					h.callC(user(), l, b, "refund", nil, "early")
 				}
